@@ -495,7 +495,8 @@ func Default(d cty.Value) (schema.Expr, error) {
 		if f.IsInt() {
 			x = &schema.Literal{V: f.Text('f', -1)}
 		} else {
-			x = &schema.Literal{V: f.String()}
+			// Shortest representation that keeps the value (String keeps 10 digits).
+			x = &schema.Literal{V: f.Text('f', -1)}
 		}
 	case d.Type() == cty.Bool:
 		x = &schema.Literal{V: strconv.FormatBool(d.True())}
@@ -1067,7 +1068,7 @@ func ColumnDefault(c *schema.Column) (cty.Value, error) {
 		case strings.ToLower(x.V) == "true", strings.ToLower(x.V) == "false":
 			return cty.BoolVal(strings.ToLower(x.V) == "true"), nil
 		case sqlx.IsLiteralNumber(x.V) && !textlike:
-			if strings.Contains(x.V, ".") {
+			if strings.ContainsAny(x.V, ".eE") {
 				f, err := strconv.ParseFloat(x.V, 64)
 				if err != nil {
 					return cty.NilVal, err
